@@ -65,6 +65,7 @@ def run(rep: Report, tier: str) -> None:
 	rule_b(rep, idx)
 	rule_c(rep, idx)
 	rule_d(rep, idx)
+	rule_e(rep, idx)
 
 
 # ---- (a) load / unload pairing ------------------------------------------------------------------------------------
@@ -297,3 +298,42 @@ def rule_d(rep: Report, idx: SourceIndex) -> None:
 	src = unparse(ov.node)
 	r.check('self.__stack_on_depends[-1]' in src and 'self.__stack_on_depends[0]' not in src, 'depends-top-frame', ov.where, 'view dependency events no longer go to the top frame of the dependency stack')
 	r.note('neither Py2Cpp.transpile nor Procedure.exec pops in a finally block: a handler that caught an exception of a nested transpile would leave a stale frame; no such handler exists today (reported, not armed)')
+
+
+# ---- (e) in-place type substitution works on deep temporaries only ---------------------------------------------------------------------
+
+def rule_e(rep: Report, idx: SourceIndex) -> None:
+	"""TemplateManipulator.apply writes resolved types into a symbol's attribute lists in place (seqs.update). The symbols reachable from the
+	SymbolDB are shared by every module of the session, so the written symbol must be a *deep* temporary: every caller passes
+	`<symbol>.to_temporary()`, and to_temporary copies each nested attribute recursively."""
+	r = rep.rule('C04/in-place-substitution-on-deep-copies', 'every symbol handed to TemplateManipulator.apply (which mutates attrs in place) is `.to_temporary()` of the shared symbol, and to_temporary clones nested attrs recursively', floor=5)
+	tm = idx.mod('rogw/tranp/semantics/reflection/helper/template.py')
+	rf = idx.mod('rogw/tranp/semantics/reflection/reflection.py')
+	rep.consulted(tm.relpath, rf.relpath)
+	ap = tm.func('TemplateManipulator.apply')
+	mutates = any(isinstance(n, ast.Call) and attr_chain(n.func) == 'seqs.update' for n in ast.walk(ap.node))
+	if not mutates:
+		r.ok('apply-does-not-mutate', ap.where, message='TemplateManipulator.apply no longer updates attrs in place; rule moot')
+		return
+	r.ok('apply-mutates-in-place', ap.where, message='seqs.update(attrs, ...) on primary.attrs')
+	n_calls = 0
+	for q, f in tm.functions.items():
+		for n in walk_no_nested(f.node):
+			if isinstance(n, ast.Call) and (attr_chain(n.func) or '').endswith('TemplateManipulator.apply') and n.args:
+				n_calls += 1
+				a0 = n.args[0]
+				ok = isinstance(a0, ast.Call) and isinstance(a0.func, ast.Attribute) and a0.func.attr == 'to_temporary'
+				r.check(ok, f'{q}:apply({unparse(a0)[:40]})', (tm.relpath, n.lineno), f'{q} passes `{unparse(a0)}` to TemplateManipulator.apply, which writes into its attrs in place; it must be a to_temporary() copy or the shared declaration symbol is rewritten for the rest of the session', unparse(n)[:120])
+	if n_calls < 3:
+		r.undecided('apply-callers', ap.where, f'only {n_calls} callers of TemplateManipulator.apply found')
+	tt = rf.func('ReflectionBase.to_temporary')
+	deep = False
+	for n in ast.walk(tt.node):
+		if isinstance(n, ast.Call) and isinstance(n.func, ast.Attribute) and n.func.attr == 'extends':
+			for a in n.args:
+				v = a.value if isinstance(a, ast.Starred) else a
+				if isinstance(v, (ast.ListComp, ast.GeneratorExp)) and isinstance(v.elt, ast.Call) and isinstance(v.elt.func, ast.Attribute) and v.elt.func.attr in ('to_temporary', 'clone') and 'attrs' in unparse(v.generators[0].iter):
+					deep = True
+	r.check(deep, 'to_temporary-is-deep', tt.where, 'ReflectionBase.to_temporary no longer clones each nested attribute with to_temporary(): the copy shares its nested attrs with the declaration symbol stored in the SymbolDB, so a type variable resolved two or more levels deep (dict[str, list[T]]) is written into the shared symbol and the first actual type sticks for every later module', unparse(tt.node)[-160:])
+	stack = rf.func('ReflectionBase.stack')
+	r.check('Reflection(' in unparse(stack.node) and 'origin=self' in unparse(stack.node), 'stack-makes-new-instance', stack.where, 'ReflectionBase.stack no longer creates a new Reflection over the original')
